@@ -3,7 +3,7 @@
   every call changes `m` by folding `mon` over its own output list (unless the call ends in the absorbing
   `bad` state, which forgets everything).
 -/
-import MitmVerif.Lemmas.C03Inv
+import MitmVerif.Lemmas.C03Base
 namespace MitmVerif.C03
 
 /-- the monitor of the result is the monitor of `c0` advanced over the emitted commands -/
